@@ -207,6 +207,15 @@ def cases_for(tier):
                       ('list', [('call', 'make', [('int', 1)], [('a', ('int', 2)), ('kw', w0)])])):
                 for w in (200, 79, 30):
                     cases.append(('kwcomment', t, dict(width=w, indent=r.choice([1, 4]))))
+    # the user's words are data, never a template: braces / percent signs in the trailing comment of a container
+    # that is ALSO cut by max_seq_len (its notice and the user text share one comment)
+    for node in (('list', [('int', i) for i in range(4)]), ('tuple', [('int', i) for i in range(3)]),
+                 ('set', [('int', 1), ('int', 2), ('int', 3)]), ('dict', [(('int', i), ('int', 0)) for i in range(3)])):
+        for txt in ('see {docs} for the rest', 'first {0} second {1}', 'doubled {{braces}} stay', 'percent %s %(x)s %', 'open { only'):
+            w0 = ('trailing', node, txt)
+            for t in (w0, ('list', [w0]), ('dict', [(('str', 'k'), w0)])):
+                for msl in (2, 1, None):
+                    cases.append(('template', t, dict(width=r.choice([20, 79]), max_seq_len=msl)))
     # both wrappers on one node, nested comments
     for txt in texts[:6]:
         for node in nodes[:6]:
